@@ -577,3 +577,5 @@ def run(ctx):
     ctx.guarded(r, r4_lm_step)
     r = ctx.rule("R5", "every equation is evaluated in every iteration: the loops over the tapes have no early exit", 2)
     ctx.guarded(r, r5_every_equation)
+    # this property quantifies over every shape and both backends, so it needs the evaluators it consults to be right
+    ctx.include('C05', "the Jacobian is the gradient evaluators' output", skip=())
